@@ -87,6 +87,7 @@ def innermost_loop(a, b):
 
 
 def r13a(ctx):
+    HELPER_SUMMARIES.clear()
     rem = vec_sites(ctx, REMOVERS)
     ctx.floor('R13a', 'element-removal sites on Vec<VerificationCell<CacheItem>>', len(rem), 3)
     for (a, rb, m) in rem:
@@ -158,6 +159,9 @@ def r13a(ctx):
                 # accumulator flushes (operand is a local accumulator / the length of the removal list) are checked by check_accumulator
                 if e[0] == 'local' or (e[0] == 'call' and sg(e[1]).endswith('Vec::len')):
                     continue
+                rc_ = a.root_call(e)
+                if rc_ is not None and sg(rc_[1]) in {sg(h) for h in HELPER_SUMMARIES}:
+                    continue  # flush of a summarised removal helper (checked by flush_at_callers)
                 ndec += 1
                 lp = innermost_loop(a, b)
                 if lp:
@@ -282,7 +286,7 @@ def check_accumulator(ctx, a, rb, lp, acc, errb):
     if rc is not None:
         # peel iterator adaptors down to the collection
         e = rc
-        while e[0] == 'call' and sg(e[1]).split('::')[-1] in ('rev', 'into_iter', 'iter', 'enumerate') and e[2]:
+        while e[0] == 'call' and sg(e[1]).split('::')[-1] in ('rev', 'into_iter', 'iter', 'enumerate', 'pop', 'drain', 'copied', 'cloned') and e[2]:
             e = e[2][0]
         driver = e
     okb = bool(states)
@@ -297,8 +301,78 @@ def check_accumulator(ctx, a, rb, lp, acc, errb):
         if cnt is None or not (cnt[0] == 'call' and sg(cnt[1]).endswith('Vec::len') and driver is not None and cnt[2][0] == driver):
             okb, why = False, 'num_items is not decremented exactly once by the length of the vector that drives the removal loop (%s)' % ni
             break
+    if not okb and escapes_by_return(ctx, a, acc, driver, exits and exit_targets, errb):
+        return
     ctx.check(okb, 'R13a', fn, 'acc.flush', a.loc(rb), 'after the loop total_bytes -= %s once and num_items -= len(removal index list) once on every path to the guard release' % acc, why)
     # the count must be taken before the index list is consumed and after it is complete: same vector, no pushes in between is implied by `move`
+
+
+HELPER_SUMMARIES = {}   # helper qpath -> (index of removed-bytes component, index of removed-count component) in its Ok tuple
+
+
+def escapes_by_return(ctx, a, acc, driver, exit_targets, errb):
+    """depth-1 summary: a same-module helper may hand its two accumulators (bytes removed, items removed) back to the caller,
+    which then owes the two decrements (checked at the call site by flush_at_callers)."""
+    fn = a.path
+    oks = [(b, si, e) for (b, si, k, e) in a.ret_sites() if k == 'ok']
+    if len(oks) != 1:
+        return False
+    tup = oks[0][2][3][0][1]
+    if tup[0] != 'agg' or tup[1] != 'tuple':
+        return False
+    bi = ci = None
+    for i, (n, c) in enumerate(tup[3]):
+        if c[0] == 'local' and c[2] == acc:
+            bi = i
+        if c[0] == 'call' and sg(c[1]).endswith('Vec::len') and driver is not None and c[2][0] == driver:
+            ci = i
+        if c[0] == 'local' and driver is not None:
+            # a local holding len(driver)
+            for d in a.flow.defs.get(c[1], []):
+                if d[0] == 'call' and sg(d[2].get('fn', '')).endswith('Vec::len') and a.arg(d[1], 0) == driver:
+                    ci = i
+    if bi is None or ci is None:
+        return False
+    # no counter is touched in the helper itself
+    eff = paths.collect_effects(a, a.cfg.reach0, lambda k: k[-1] if k[-1] in ('total_bytes', 'num_items') and len(k) == 2 else None)
+    if eff:
+        return False
+    HELPER_SUMMARIES[fn] = (bi, ci)
+    ctx.ok('R13a', fn, a.loc(oks[0][0], oks[0][1]), 'helper summary: returns (.. removed bytes at .%d, removed items at .%d ..) to its caller, which owes the counter updates' % (bi, ci))
+    return flush_at_callers(ctx, fn, bi, ci)
+
+
+def flush_at_callers(ctx, helper, bi, ci):
+    sites = [(b, cb) for (b, cb) in ctx.cg.call_sites(helper) if b['crate'] == 'chunk_cache' and '::tests::' not in b['qpath']]
+    if not sites:
+        ctx.fail('R13a', helper, 'helper callers', '-', 'helper that removes tracked items is never called: cannot establish who updates the counters')
+        return True
+    for (b, cb) in sites:
+        a = an(b)
+        errb = [x for (x, si, k, _) in a.ret_sites() if k == 'err']
+        eff = paths.collect_effects(a, a.cfg.reach0, lambda k: k[-1] if k[-1] in ('total_bytes', 'num_items') and len(k) == 2 else None)
+        gs = [g for g in locks.guards(a, locks.SYNC_GUARDS) if flow.mentions(a.flow.local(g.local), lambda z: z[0] == 'field' and z[2] == 'state')]
+        stops = set(a.cfg.returns)
+        for g in gs:
+            stops |= set(g.releases)
+        res = paths.propagate_from(a, list(a.cfg.succ[cb]), stops, {bb: [(c, s, t) for (c, s, t, _, _) in es] for bb, es in eff.items()}, cut_blocks=errb)
+        term_expr = {(c, t): e for es in eff.values() for (c, s, t, e, ln) in es}
+        states = set()
+        for v in res.values():
+            states |= v
+        ok = bool(states) and bool(gs) and gs[0].holds_at(cb)
+        why = 'the helper is not called under the state guard' if not ok else ''
+        for st in states:
+            tb = [(t, n) for ((c, t, s), n) in st if c == 'total_bytes' and s == -1 and a.rooted_at(term_expr[(c, t)], cb)]
+            ni = [(t, n) for ((c, t, s), n) in st if c == 'num_items' and s == -1 and a.rooted_at(term_expr[(c, t)], cb)]
+            def comp(e):
+                return e[2] if e[0] == 'field' else None
+            if not (len(tb) == 1 and tb[0][1] == 1 and comp(term_expr[('total_bytes', tb[0][0])]) == str(bi)):
+                ok, why = False, 'after calling the removal helper total_bytes is not decremented exactly once by the bytes it reports as removed (component .%d)' % bi
+            if not (len(ni) == 1 and ni[0][1] == 1 and comp(term_expr[('num_items', ni[0][0])]) == str(ci)):
+                ok, why = False, 'after calling the removal helper num_items is not decremented exactly once by the count it reports as removed (component .%d)' % ci
+        ctx.check(ok, 'R13a', b['qpath'], 'helper flush', a.loc(cb), 'the caller subtracts the helper\'s removed bytes and removed count exactly once each, under the state guard, on every path', why)
+    return True
 
 
 def r13b(ctx):
